@@ -10,6 +10,15 @@ from eqsig import im
 from eqsig.exceptions import deprecation
 
 
+def _float_array(values):
+    """Copy of `values` as an array; integer (and boolean) records are stored as float64, so that later steps
+    (in-place additions, averages, squares, np.abs of the most negative integer) neither wrap around nor truncate"""
+    values = np.array(values)
+    if not np.issubdtype(values.dtype, np.inexact):
+        values = values.astype(float)
+    return values
+
+
 class Signal(object):
     """
     A time series object
@@ -42,7 +51,7 @@ class Signal(object):
                  verbose=0, ccbox=0):
         self.verbose = verbose
         self._dt = dt
-        self._values = np.array(values)
+        self._values = _float_array(values)
         self.label = label
         if smooth_fa_freqs is not None:
             self.smooth_fa_freqs = smooth_fa_freqs
@@ -63,7 +72,7 @@ class Signal(object):
         return ValueError('Cannot directly modify values, use self.reset_values()')
 
     def reset_values(self, new_values):
-        self._values = np.array(new_values)
+        self._values = _float_array(new_values)
         self._npts = len(new_values)
         self.clear_cache()
 
